@@ -91,3 +91,41 @@ Example C03_check_rejects :
   c03_check KBase (Seq Hook (Seq (ForSlots sweep_base) (Repeat (Seq Hook (Seq (ForSlots sweep_base) (Seq Dump Dump)))))) = false /\
   c03_check KBase (Seq Hook (Seq (ForSlots sweep_base) (Repeat (Seq ClipAll (Seq Hook (Seq (ForSlots sweep_base) Dump)))))) = true.
 Proof. repeat split; vm_compute; reflexivity. Qed.
+
+(* ------------------------------------------------------------------ ABC's onlooker loop (finding e)
+   The IR takes the number of passes of `while k < len(agents)` from the oracle, so termination of that loop is
+   NOT covered by the theorems above.  On the regenerated selection probability (Gen/Onlooker.v) it is in fact
+   refuted: the total is computed once before the loop, a greedy acceptance can push a fitness below it, and once
+   every food source has fit/(total+eps)+0.1 <= 0 no draw of [0,1) selects anything any more. *)
+From Coq Require Import QArith.
+From OV Require Import Model.Onlooker Gen.Onlooker.
+
+Definition abc_prob (total : Q) (fit : Q) : Q := onl_prob fit total onl_eps.
+
+(* whatever the stream of draws >= the lower end of the draw range: if no source has a probability above that end
+   and fewer than n selections have been made, the loop never returns *)
+Theorem C03_onlooker_stuck_when_no_source_selectable :
+  forall total fits k, (k < length fits)%nat -> (forall f, In f fits -> (abc_prob total f <= onl_lo)%Q) ->
+  forall fuel s, (forall d, In d s -> (onl_lo <= fst d)%Q) -> forall fs k' r, loop (abc_prob total) fuel fits k s <> Done fs k' r.
+Proof. intros total fits k Hk Hp. apply stuck_forever with (lo := onl_lo); assumption. Qed.
+
+(* witness: fitnesses 10, -3, -3 (sum 4); the first onlooker improves source 0 to -5; from then on nothing is selectable *)
+Definition onl_fits0 : list Q := [10 # 1; -3 # 1; -3 # 1]%Q.
+Definition onl_total0 : Q := (4 # 1)%Q.
+Definition onl_stream0 : list (Q * Q) := [(0 # 1, -5 # 1); (0 # 1, 0 # 1); (0 # 1, 0 # 1)]%Q.
+
+Theorem C03_onlooker_refuted :
+  pass (abc_prob onl_total0) onl_fits0 0 onl_stream0 = Some ([-5 # 1; -3 # 1; -3 # 1]%Q, 1%nat, []) /\
+  forall fuel s, (forall d, In d s -> (onl_lo <= fst d)%Q) ->
+  forall fs k' r, loop (abc_prob onl_total0) fuel [-5 # 1; -3 # 1; -3 # 1]%Q 1 s <> Done fs k' r.
+Proof.
+  split; [vm_compute; reflexivity|].
+  apply C03_onlooker_stuck_when_no_source_selectable; [simpl; lia|].
+  intros f [<-|[<-|[<-|[]]]]; vm_compute; discriminate.
+Qed.
+
+(* and it does terminate, in one pass, when every source is certain to be selected *)
+Theorem C03_onlooker_one_pass_when_all_selectable :
+  forall total fits s r, (forall f, In f fits -> (onl_hi <= abc_prob total f)%Q) -> (forall d, In d s -> (fst d < onl_hi)%Q) ->
+  pass (abc_prob total) fits 0 s = Some r -> snd (fst r) = length fits.
+Proof. intros total fits s r Hp Hd H. exact (pass_all_selected (abc_prob total) onl_hi fits 0 s r Hp Hd H). Qed.
